@@ -5,9 +5,9 @@ from . import common as C
 M = C.M
 G = M + "glob::"
 META = {
-    "explanation": "R1 subject and truth: NameMatcher/PathMatcher/LinkNameMatcher return exactly Pattern::matches(subject) (no shortcut comparison), with subject = file_name() / path() / read_link target through identity conversions; "
+    "explanation": "R1 subject and truth: NameMatcher/PathMatcher/LinkNameMatcher return exactly Pattern::matches_or_report(subject, matcher_io) (no shortcut comparison), with subject = file_name() / path() / read_link target through identity conversions; "
                    "R2 caseless flag: the flag each token passes equals the oracle table (-iname -ilname -ipath -iwholename caseless, the rest not), and Pattern::new turns it into IGNORECASE / NONE; "
-                   "R3 whole-string API (contract O2): the only onig entry point at the match role is Regex::is_match; the regex is compiled by Regex::with_options with Syntax::posix_basic() and that syntax's own options or-ed with the flag; "
+                   "R3 whole-string API (contracts O2, O3): the only onig entry point at the match role is Regex::match_with_param at 0 compared with Some(string.len()); a failed match is diagnosed (stderr, exit status) and false; the regex is compiled by Regex::with_options with Syntax::posix_basic() and that syntax's own options or-ed with the flag; "
                    "R4 translation tables recovered from the char dispatch of glob_to_regex and compared row by row: ? -> '.', * -> '.*', backslash -> next char literal / trailing backslash never matches, [ -> bracket expression or literal, anything else literal; "
                    "literal escape set of regex_push_literal == { . [ \\\\ * ^ $ } (the BRE specials); bracket prologue of extract_bracket_expr: '!' -> '^', then a leading ']' is literal with and without negation; a bracket expression that does not compile falls back to a literal '['",
     "decides": "that each test is the glob engine's verdict on the right string, compiled with the right options, through a whole-string API, and that the glob->BRE translation has the right per-character rows",
@@ -87,7 +87,7 @@ def run(ctx):
             continue
         short = ty.split("::")[-1]
         def role(t):
-            if t.callee == G + "Pattern::matches":
+            if t.callee == G + "Pattern::matches_or_report":
                 return "glob"
             if (t.callee or "").endswith("lname::read_link_target"):
                 return "read_link_target"
@@ -107,7 +107,8 @@ def run(ctx):
                 n_sub += 1
                 o = prim.expand_single_def_vars(f, prim.origin_of_operand(f, t.args[1]))
                 po = prim.origin_of_operand(f, t.args[0]).strip()
-                ctx.ob("R1", "own-pattern:%s" % short, po.k == "field" and po.a == "pattern", "matches with %s" % po.fmt(), fn=f, where=prim.site(f, b), how="provenance slice", nontrivial=False)
+                io = prim.origin_of_operand(f, t.args[2]).strip() if len(t.args) > 2 else None
+                ctx.ob("R1", "own-pattern:%s" % short, po.k == "field" and po.a == "pattern" and io is not None and any(x.k == "arg" and x.a["name"] == "matcher_io" for x in io.walk()), "matches with %s, reporting through %s" % (po.fmt(), io.fmt() if io is not None else "?"), fn=f, where=prim.site(f, b), how="provenance slice", nontrivial=False)
                 so = o.strip()
                 if so.k == "const" and so.a.get("v") == "/":
                     # basename of a root path: all-slash names are matched as "/"
@@ -125,7 +126,7 @@ def run(ctx):
                     ok_src = any(c.endswith("lname::read_link_target") for c in calls)
                 bad = [n for n in names if n not in SUBJECT_ID and n not in ("file_name", "path", "read_link_target")]
                 ctx.ob("R1", "subject:%s" % short, ok_src and not bad, "%s matches against %s; oracle: %s through identity conversions (offending: %s)" % (short, o.fmt(), {"file_name": "the entry's last component (WalkEntry::file_name)", "path": "the whole path (WalkEntry::path)", "read_link": "the link's target text"}[src], bad), fn=f, where=prim.site(f, b), how="provenance slice + allow-list")
-        ctx.floor("R1", "Pattern::matches sites in %s" % short, n_sub, 1)
+        ctx.floor("R1", "Pattern::matches_or_report sites in %s" % short, n_sub, 1)
     rl = ctx.fn("R1", M + "lname::read_link_target")
     if rl is not None:
         reads = [(b, t) for b, t in rl.calls() if t.j.get("callee_name") == "read_link"]
@@ -246,22 +247,60 @@ def run(ctx):
             if n in ("new", "with_options", "with_options_and_encoding", "with_encoding"):
                 continue
             n_match += 1
-            ctx.ob("R3", "match-api:%s@%s" % (n, prim.short(f.path)), n == "is_match",
-                   "glob matching calls onig::Regex::%s in %s; only is_match tests the whole string (find/search/captures/match_with_options accept a prefix or substring — contract O2)" % (n, f.path), fn=f, where=prim.site(f, b), how="who-may-call")
+            ctx.ob("R3", "match-api:%s@%s" % (n, prim.short(f.path)), n == "match_with_param",
+                   "glob matching calls onig::Regex::%s in %s; oracle match_with_param: it returns a failed match (retry limit on many wildcards) as Err where is_match/find/captures/match_with_options panic (contract O3), and its Ok(Some(n)) is the byte length matched from the start (contract O2)" % (n, f.path), fn=f, where=prim.site(f, b), how="who-may-call")
     ctx.floor("R3", "onig match calls in glob.rs", n_match, 1)
-    pm = ctx.fn("R3", G + "Pattern::matches")
+    pm = ctx.fn("R3", G + "Pattern::try_matches")
     if pm is not None:
-        o = prim.origin_of_local(pm, 0).strip()
-        ok = o.k == "call" and o.a["name"] == "is_some_and"
-        cl = prog.closures_of(pm)
-        okc = False
-        for cf in cl:
+        alts = [a.strip() for a in prim.flatten_phi(prim.origin_of_local(pm, 0))]
+        desc = " | ".join(a.fmt()[:200] for a in alts)
+        none_false = [a for a in alts if a.k == "agg" and str(a.a).endswith("Ok") and a.kids and a.kids[0].strip().k == "const" and a.kids[0].strip().a.get("v") in (False, 0)]
+        errs = [a for a in alts if a.k == "call" and a.a["name"] == "from_residual"]
+        oks = [a for a in alts if a.k == "agg" and str(a.a).endswith("Ok") and a not in none_false]
+        ok = len(none_false) == 1 and len(errs) == 1 and len(oks) == 1 and len(alts) == 3
+        if ok:
+            v = oks[0].kids[0].strip()
+            mcs = [c for c in v.call_nodes() if c.a["callee"] == "onig::Regex::match_with_param"]
+            ok = v.k == "call" and v.a["name"] == "eq" and len(mcs) == 1
+            if ok:
+                mc = mcs[0]
+                recv, subj, at, opts, region = [k.strip() for k in mc.kids[:5]]
+                ok = any(x.k == "field" and str(x.a) == "regex" for x in recv.walk()) and subj.k == "arg" and subj.a["name"] == "string" and not subj.call_nodes()
+                ok = ok and at.k == "const" and at.a.get("v") == 0 and opts.k == "const" and opts.a.get("v") == 0 and region.k == "agg" and str(region.a).endswith("None")
+                l, r = [k.strip() for k in v.kids]
+                def is_len(x):
+                    return x.k == "agg" and str(x.a).endswith("Some") and [c.a["name"] for c in x.call_nodes()] == ["len"] and any(y.k == "arg" and y.a["name"] == "string" for y in x.walk()) and not any(y.k == "bin" for y in x.walk())
+                def is_payload(x):
+                    return any(y.k == "variant" and str(y.a) == "Continue" for y in x.walk()) and any(c is mc for c in x.call_nodes())
+                ok = ok and ((is_payload(l) and is_len(r)) or (is_payload(r) and is_len(l)))
+                ok = ok and any(c is mc or c.a["callee"] == "onig::Regex::match_with_param" for c in errs[0].call_nodes())
+        ctx.ob("R3", "verdict=whole-string-match", ok, "Pattern::try_matches = %s; oracle: Ok(false) without a regex, otherwise match_with_param(regex, string, at 0, no options, no region)? == Some(string.len())" % desc, fn=pm, how="provenance slice")
+        # the None branch is the only constant verdict: it is guarded by the regex being absent
+        for b in pm.reachable():
+            for st in pm.blocks[b].stmts:
+                if st.rv is not None and st.rv.k == "agg" and st.rv.j.get("variant") == "Ok" and st.rv.ops and st.rv.ops[0].kind == "const":
+                    gs = prim.dominating_guards(pm, b)
+                    okn = any(any(x.k == "field" and str(x.a) == "regex" for x in gd["pred"].walk()) and gd["labels"] in ([0], ["else"]) for gd in gs)
+                    ctx.ob("R3", "constant-verdict-only-without-regex", okn, "Ok(false) is returned under %s; oracle: only when the pattern has no regex (invalid bracket expression => never matches)" % prim.guards_fmt(gs)[:200], fn=pm, where=prim.site(pm, b, st), how="dominating guard")
+    mr = ctx.fn("R3", G + "Pattern::matches_or_report")
+    if mr is not None:
+        o = prim.origin_of_local(mr, 0).strip()
+        ok = o.k == "call" and o.a["name"] == "unwrap_or_else" and len(o.kids) == 2
+        if ok:
+            tm, clo = o.kids[0].strip(), o.kids[1].strip()
+            ok = tm.k == "call" and tm.a["callee"] == G + "Pattern::try_matches" and [k.strip().k for k in tm.kids] == ["arg", "arg"] and tm.kids[0].strip().a["name"] == "self" and tm.kids[1].strip().a["name"] == "string"
+        cls = prog.closures_of(mr)
+        okc = len(cls) == 1
+        if okc:
+            cf = cls[0]
             ctx.analysed_fns.add(cf.path)
             ro = prim.origin_of_local(cf, 0).strip()
-            if ro.k == "call" and ro.a["callee"] == "onig::Regex::is_match":
-                subj = ro.kids[1]
-                okc = not subj.call_nodes() and any(x.k == "arg" or x.k == "field" for x in subj.walk())
-        ctx.ob("R3", "verdict=is_match(subject)", ok and okc, "Pattern::matches = %s; must be `regex is Some and is_match(string)` on the string it was given" % o.fmt(), fn=pm, how="provenance slice through the closure")
+            names = [(t.callee or "") for b, t in cf.calls()]
+            codes = [prim.origin_of_operand(cf, t.args[1]).strip() for b, t in cf.calls() if t.j.get("callee_name") == "set_exit_code"]
+            okc = ro.k == "const" and ro.a.get("v") in (False, 0) and "std::io::_eprint" in names and len(codes) == 1 and codes[0].k == "const" and codes[0].a.get("v") not in (0, None)
+            # straight-line: both effects on every path
+            okc = okc and not any(cf.blocks[b].term.k == "switch" for b in cf.reachable())
+        ctx.ob("R3", "verdict=try_matches-or-diagnosed-false", ok and okc, "Pattern::matches_or_report = %s; oracle: try_matches(self, string), and on a failed match: a diagnostic on stderr, a non-zero exit status, and false" % o.fmt()[:300], fn=mr, how="provenance slice through the closure")
     pb = ctx.fn("R3", G + "parse_bre")
     if pb is not None:
         wo = [(b, t) for b, t in pb.calls() if (t.callee or "").startswith("onig::Regex::with_options")]
